@@ -387,6 +387,9 @@ where
         }
     }
     pub fn truncate(&mut self, len: usize) {
+        if len >= self.len() {
+            return;
+        }
         for x in self.iter_mut().skip(len) {
             unsafe { ptr::drop_in_place(x as *mut T) };
         }
@@ -394,7 +397,9 @@ where
             L::zero().emplace(&mut self.data).unwrap();
         } else {
             let mut iter = self.bytes_mut_iter();
-            let _ = iter.nth(len - 1);
+            if len > 1 {
+                let _ = iter.nth(len - 2);
+            }
             L::max_value().emplace(iter.data.unwrap()).unwrap();
         }
     }
